@@ -463,6 +463,8 @@ class MayRaise:
             if isinstance(n, ast.Subscript) and isinstance(n.ctx, ast.Load) and not isinstance(n.slice, ast.Slice):
                 if id(n) in self.discharged:
                     continue
+                if isinstance(n.slice, ast.Name) and isinstance(self.eng.const_of(self._f.module, n.slice), slice):
+                    continue  # x[NAME] with NAME a module-level slice object is a slicing: it cannot raise IndexError
                 out.add(self._mk("IndexError", n, f"subscript {norm(n)[:50]}"))
                 out.add(self._mk("KeyError", n, f"subscript {norm(n)[:50]}"))
             elif isinstance(n, ast.BinOp):
